@@ -295,9 +295,11 @@ func c10Run(t *rapid.T) {
 		}
 	}
 
+	sizeHistory := uni(t, "sizehistory", 8) == 0 // one history in eight may contain the (slow) size-variation ops
+	var bulkObserved []string                    // keys written by the bulk-set op of this history
 	checkAll := func() {
 		for _, c := range live {
-			for _, k := range c10Observed {
+			for _, k := range append(append([]string{}, c10Observed...), bulkObserved...) {
 				if c.ambiguous[k] {
 					count("c10_skipped_nil_helper", 1)
 					continue
@@ -341,6 +343,54 @@ func c10Run(t *rapid.T) {
 		kind := uni(t, "op", 12)
 		if len(live) == 0 {
 			kind = kind % 3
+		}
+		// size variation (thresholds: depth limits, small-scope storage that changes representation when
+		// it grows): rare, because a deep chain makes every later observation slower
+		if sizeHistory && len(live) > 0 && uni(t, "sizeop", 12) == 0 {
+			if rapid.Bool().Draw(t, "deepchain") && len(live) < maxCtx {
+				// a chain of d New() calls below some context; the leaf (and one scope in the middle) stay live
+				p := live[uni(t, "parent", len(live))]
+				d := []int{20, 99, 100, 101, 130}[uni(t, "chaindepth", 5)]
+				hist = append(hist, fmt.Sprintf("ctx#%d .. ctx#%d = chain of %d New() calls below ctx#%d", nextID, nextID+d-1, d, p.id))
+				mid := d / 2
+				for i := 0; i < d; i++ {
+					c := newModel(p, map[string]mval{}, nil)
+					rc, ok := p.real.New().(*plush.Context)
+					if !ok {
+						violate(t, "C10", "new-returns-context", "new-type", fail("", "", "New() did not return a *plush.Context"))
+						return
+					}
+					c.real = rc
+					if i == mid || i == d-1 {
+						live = append(live, c)
+					}
+					p = c
+				}
+				count("c10_deep_chains", 1)
+			} else {
+				// many distinct keys on one scope, then one of the early ones is overwritten
+				c := live[uni(t, "ctx", len(live))]
+				n := []int{8, 9, 10, 17, 40, 70}[uni(t, "bulkn", 6)]
+				hist = append(hist, fmt.Sprintf("ctx#%d.Set(k0..k%d, 100..)", c.id, n-1))
+				for i := 0; i < n; i++ {
+					k := fmt.Sprintf("k%d", i)
+					c.data[k] = mval{kind: mInt, i: 100 + i}
+					c.real.Set(k, 100+i)
+				}
+				over := uni(t, "bulkover", n)
+				k := fmt.Sprintf("k%d", over)
+				hist = append(hist, fmt.Sprintf("ctx#%d.Set(%q, 7)", c.id, k))
+				c.data[k] = mval{kind: mInt, i: 7}
+				c.real.Set(k, 7)
+				for _, o := range []int{0, 3, 7, 8, n - 1, over} {
+					if o < n {
+						bulkObserved = append(bulkObserved, fmt.Sprintf("k%d", o))
+					}
+				}
+				count("c10_bulk_sets", 1)
+			}
+			checkAllMaybe()
+			continue
 		}
 		if kind == 2 && len(live) > 0 && len(live) < maxCtx && uni(t, "doublewrap", 3) == 0 {
 			// NewContextWithContext given a *plush.Context: a second way to chain scopes
